@@ -14,6 +14,10 @@ between two suspension points: API calls and message handlers run atomically; ev
 "the next loop iteration" (a cancelled task finishing, a due `sleep` waking its task, done-callbacks) happens in
 `settle` (the loop runs until nothing is ready) or, one loop iteration at a time, in `tick`.
 
+Round 6: the loss of the server session and the re-login are ops (`Op.sessionDestroyed`, `Op.sessionInitialized`):
+they change `State.session` and nothing else — in particular NOT the ticket generator: requests, their timers and
+the ticket counter outlive the session.
+
 Two refinements of that picture are part of the model (round 4):
   * **loop iterations around an expiry** (`Op.tick`).  A `Timer.runner` task (tasks.py:99-101) goes through
     *created* (`create_task` scheduled its first step) → *sleeping* (`asyncio.sleep(timeout)` registered its
@@ -110,11 +114,13 @@ structure State where
                              -- (a `.wishlist` entry of `pending`); this many enabled items come after it
   gated : Bool               -- environment: `send_server_messages` suspends until the network answers
   pending : List Setup       -- requests being set up (ticket drawn, send not yet returned to its caller)
+  session : Bool             -- `self._session is not None` (manager.py:72, 431-435): a server session is initialised
 deriving Repr
 
 def init (cfg : Cfg) : State :=
   { cfg := cfg, now := 0, gen := cfg.initial, draws := 0, nextTask := 0, requests := [], tasks := [],
-    wlInterval := none, wlNext := none, wlWoken := false, wlRound := none, gated := false, pending := [] }
+    wlInterval := none, wlNext := none, wlWoken := false, wlRound := none, gated := false, pending := [],
+    session := false }
 
 inductive Op
   | search (k : Kind)            -- search / search_room / search_user                       (manager.py:114-183)
@@ -130,6 +136,8 @@ inductive Op
   | gate (b : Bool)              -- from now on `send_server_messages` suspends (`true`) / returns at once (`false`)
   | sendDone (tk : Nat) (ok : Bool)  -- the blocked send of the set-up with ticket `tk` returns (`ok`) / raises
   | cancelCall (tk : Nat)        -- the caller's task suspended in `search*` (ticket `tk`) is cancelled
+  | sessionDestroyed             -- SessionDestroyedEvent: the server session is lost       (manager.py:434-435)
+  | sessionInitialized           -- SessionInitializedEvent: logged in (again)              (manager.py:431-432)
 deriving Repr, DecidableEq
 
 /-! ### Timer -/
@@ -418,6 +426,15 @@ def step (s : State) : Op → State × List Obs
     match s.pending.find? (fun p => p.ticket = tk && p.kind != .wishlist) with
     | none => (s, [Obs.noSetup])
     | some p => ({ s with pending := setOutcome s.pending p.rid false }, [])
+  -- The loss of the server session and the next login (round 6).  `_on_session_destroyed` / `_on_session_initialized`
+  -- (manager.py:431-435) assign `self._session` and NOTHING else: the ticket generator, `self.requests`, the request
+  -- Timers, set-ups in progress and `wishlist_interval` all survive a re-login (search results come from peers, not
+  -- from the server: a request outlives the session it was made in).  `self._session` is read only by the handlers of
+  -- *incoming* searches (:191, :364, :377), which are not part of this model.  The wishlist task is stopped by the
+  -- `ConnectionStateChangedEvent(CLOSING)` that precedes the loss (`serverClosing`) and restarted by the
+  -- `WishlistInterval` message that follows the login (`wlInterval`) — ops of their own.
+  | .sessionDestroyed => ({ s with session := false }, [])
+  | .sessionInitialized => ({ s with session := true }, [])
 
 /-- run an op list, collecting the observations (oldest first) -/
 def run : State → List Op → State × List Obs
